@@ -376,6 +376,8 @@ class SchDef(object):
                 assert isinstance(val, (float, int)), 'The {} property ' \
                     'must contain 3 lists of numbers. Got : {}.'.format(
                         name, val)
+                assert val == val, 'The {} property must not contain NaN. ' \
+                    'Got : {}.'.format(name, val)
                 assert not nonnegative or val >= 0, 'The {} property must contain ' \
                     'non-negative fractions. Got : {}.'.format(name, val)
         return week
